@@ -19,7 +19,7 @@ EL = list(ek.ELEMENTS)
 def read_lammpstrj(path):
     lines = open(path).read().splitlines()
     n = int(lines[3])
-    box = [[float(x) for x in lines[5 + d].split()[:2]] for d in range(3)]
+    box = [[float(x) for x in lines[5 + d].split()] for d in range(3)]  # lo hi [tilt]
     rows = {}
     for ln in lines[9 : 9 + n]:
         sp = ln.split()
@@ -71,7 +71,7 @@ def read_ase(path):
 
 
 # ------------------------------------------------------------------ setups
-def setup(engine, root, masses_idx, pos, vel, temperature, int_masses=False, ase_integ=None, tmd_dim=3):
+def setup(engine, root, masses_idx, pos, vel, temperature, int_masses=False, ase_integ=None, tmd_dim=3, triclinic=False):
     """Build the engine and a source frame. Returns (eng, source file, masses[amu or reduced], reader, extra)."""
     n = len(pos)
     els = [EL[i % len(EL)] for i in masses_idx]
@@ -85,7 +85,7 @@ def setup(engine, root, masses_idx, pos, vel, temperature, int_masses=False, ase
         src = os.path.join(src_dir, "frame.lammpstrj")
         order = list(range(n))[::-1]
         with open(src, "w") as fh:
-            fh.write(ek.lammps_frame_text(types, pos, vel, [(0.0, 30.0)] * 3, order=order, trailing_id=True))
+            fh.write(ek.lammps_frame_text(types, pos, vel, [(0.0, 30.0, 1.5), (0.0, 30.0, -2.0), (0.0, 31.0, 0.5)] if triclinic else [(0.0, 30.0)] * 3, order=order, trailing_id=True))
         return eng, src, amu, read_lammpstrj, {"types": types}
     if engine == "cp2k":
         eng = ek.make_cp2k(root, els, pos, temperature=temperature)
@@ -151,6 +151,7 @@ def call_cases(draw):
         "stored_ekin": draw(st.sampled_from([None, None, 7777.25])),
         # TurtleMD systems of lower dimension (1D double well, 2D): the xyz frames still carry three velocity columns
         "tmd_dim": draw(st.sampled_from([3, 3, 1, 2])),
+        "triclinic": draw(st.sampled_from([False, False, True])),  # LAMMPS: box rows with tilt factors
         "boundary": draw(st.sampled_from([True, True, True, False])),  # the stream crossed the process boundary (as in a run) / a freshly built one
     }
 
@@ -171,7 +172,7 @@ def body_call(rec, c):
     root = isolate.mkscratch("vel_")
     try:
         T = c["temperature"] if engine != "turtlemd" else c["temperature"] / 300.0
-        eng, src, masses, reader, extra = setup(engine, root, c["masses_idx"], c["pos"], c["vel"], T, c.get("int_masses", False), c.get("ase_integ"), c.get("tmd_dim", 3))
+        eng, src, masses, reader, extra = setup(engine, root, c["masses_idx"], c["pos"], c["vel"], T, c.get("int_masses", False), c.get("ase_integ"), c.get("tmd_dim", 3), c.get("triclinic", False))
         eng.rgen = job_stream(c["seed"], c.get("boundary", True))
         vs = {"zero_momentum": c["zero_momentum"]} if c["zero_momentum"] is not None else {}
         src_bytes = open(src, "rb").read()
@@ -207,7 +208,7 @@ def body_call(rec, c):
         rec.check(np.allclose(out["pos"], before["pos"], rtol=0, atol=tol), f"{engine}:positions-changed", f"max {np.abs(out['pos']-before['pos']).max()} {info}")
         if engine == "lammps":
             rec.check(out["ids"] == before["ids"] and out["types"] == before["types"], "lammps:ids-or-types-changed", f"{out['ids']} {out['types']} vs {before['ids']} {before['types']}")
-            rec.check(np.allclose(out["box"], before["box"], rtol=0, atol=1e-9), "lammps:box-changed", f"{out['box']} vs {before['box']}")
+            rec.check(out["box"].shape == before["box"].shape and np.allclose(out["box"], before["box"], rtol=0, atol=1e-9), "lammps:box-changed", f"{out['box'].tolist()} vs {before['box'].tolist()}")
         elif engine == "gromacs":
             rec.check(out["labels"] == before["labels"], "gromacs:atom-labels-changed", info)
             rec.check(out["box"] == before["box"], "gromacs:box-changed", f"{out['box']} vs {before['box']}")
